@@ -166,20 +166,37 @@ type planted struct {
 	Why   string
 }
 
-// plant puts a sentinel at path p inside root (addressable struct value).
-func plant(root reflect.Value, p accessPath, marker string) planted {
+// plant puts a sentinel at path p inside root (addressable struct value).  Slices on the path get two
+// elements; idx selects which element of the innermost slice receives the sentinel, so that planting with
+// idx 0 and idx 1 populates both (a Children() that mishandles multi-element slices is then visible).
+func plant(root reflect.Value, p accessPath, marker string, idx int) planted {
 	res := planted{Path: p, Kind: p.Leaf}
 	cur := root
+	lastStar := -1
 	for i, s := range p.Steps {
-		last := i == len(p.Steps)-1
+		if s == "[*]" {
+			lastStar = i
+		}
+	}
+	for i, s := range p.Steps {
 		switch s {
 		case "[*]":
+			k := 0
+			if i == lastStar {
+				k = idx
+			}
 			if cur.Kind() == reflect.Array {
-				cur = cur.Index(0)
+				if k >= cur.Len() {
+					k = 0
+				}
+				cur = cur.Index(k)
 			} else {
-				sl := reflect.MakeSlice(cur.Type(), 1, 1)
-				cur.Set(sl)
-				cur = cur.Index(0)
+				if cur.Len() < 2 {
+					sl := reflect.MakeSlice(cur.Type(), 2, 2)
+					reflect.Copy(sl, cur)
+					cur.Set(sl)
+				}
+				cur = cur.Index(k)
 			}
 		case "{*}":
 			res.Why = "map slot"
@@ -193,7 +210,6 @@ func plant(root reflect.Value, p accessPath, marker string) planted {
 			}
 			cur = cur.FieldByName(s)
 		}
-		_ = last
 	}
 	switch p.Leaf {
 	case leafIface:
@@ -372,4 +388,13 @@ func reachable(n ast.Node) []reachNode {
 		visitNodePtr(rv, -1, "", "root")
 	}
 	return out
+}
+
+func (p accessPath) hasSlice() bool {
+	for _, s := range p.Steps {
+		if s == "[*]" {
+			return true
+		}
+	}
+	return false
 }
